@@ -1741,6 +1741,24 @@ def c13(ctx):
             st = [streams.ev("objS", "objS", (), n, "any")] + [x for j in range(n) for x in (streams.ev("key", "keyref" if j % 2 else "key", list(b"k%d" % j)), streams.ev("int", "int8", streams.canon(j % 100)))] + [streams.ev("objE", "objE")]
             cases.append(case("C13", "unfold", "go", stream=st, sub=dict(T=MT, V0=gotypes.zero_vd(MT)), origin="%d members" % n))
             cases.append(case("C13", "unfold", "go", stream=st, sub=dict(T=dict(k="iface"), V0=gotypes.zero_vd(dict(k="iface"))), origin="%d members" % n))
+    # a map type that is reachable from its own element type (one compiled unfolder serves every nesting level): documents
+    # that populate it at two and more levels, several members per level
+    def robj(spec, ref):
+        out = [streams.ev("objS", "objS", (), -1 if ref else len(spec), "any")]
+        for name, sub in spec:
+            out += [streams.ev("key", "keyref" if ref else "key", list(name))] + robj(sub, not ref if len(name) % 2 else ref)
+        return out + [streams.ev("objE", "objE")]
+    RM = dict(k="named", id="RecMap")
+    for spec in ([(b"root", [(b"a", []), (b"b", [])])],
+                 [(b"root", [(b"a", []), (b"b", [(b"c", []), (b"dd", [])])]), (b"z", [])],
+                 [(b"p", [(b"q", [(b"r", [(b"s", [])])])]), (b"t", [(b"u", [])])],
+                 [(b"", [(b"x", []), (b"", [])]), (b"y", [(b"y", [])])]):
+        for ref in (False, True):
+            st = robj(spec, ref)
+            cases.append(case("C13", "unfold", "go", stream=st, sub=dict(T=RM, V0=gotypes.zero_vd(RM)), origin="self-referential map type, nested members"))
+            T2 = dict(k="slice", e=[RM])
+            cases.append(case("C13", "unfold", "go", stream=[streams.ev("arrS", "arrS", (), 2, "any")] + st + st + [streams.ev("arrE", "arrE")],
+                              sub=dict(T=T2, V0=gotypes.zero_vd(T2)), origin="self-referential map type in a slice"))
     # member names recurring across sibling objects, delivered by reference, with the unfolder's optional key cache on
     names = [b"a", b"b", b"c", b"", b"dd", "\u00e9".encode()]
     for hist in ([0, 1, 2, 0], [0, 1, 0, 1, 2, 0], [3, 0, 1, 3], [0, 1, 2, 3, 4, 5, 0, 2, 4], [4, 4, 5, 4]):
@@ -2082,6 +2100,16 @@ def c15(ctx):
                 doc, follow = enc_doc(fmt, val), enc_doc(fmt, fol)
                 for j, cuts in enumerate(([], [len(doc) // 2], [L // 2, L + 9, 2 * L + 50])):
                     cases.append(case("C15", "alias", fmt, doc=doc, cuts=cuts, sub=dict(target="ifc", follow=follow, gc=False, twice=(j == 1)), origin="byte strings of %d bytes" % L))
+    # Fold programs whose types have registered / implemented custom folders (the library hands raw pointers to user code
+    # there), at every position GenGoType puts them (fields, pointers, slices, maps, interfaces): under checkptr
+    def mentions_custom(T):
+        if T.get("k") == "named" and T.get("id") in ("RegT", "RegObj", "FoldT", "FoldObj", "FoldSl", "FoldMp", "ZeroT", "ZeroP"):
+            return True
+        return any(mentions_custom(e) for e in T.get("e", [])) or any(mentions_custom(f["t"]) for f in T.get("f", []))
+    frows = [r for r in gen_gotypes(ctx, quick=True) if mentions_custom(r["T"])]
+    for n, r in enumerate(frows):
+        for top in ("val", "ptr"):
+            cases.append(case("C15", "fold", "go", sub=dict(T=r["T"], V=gotypes.fill(r["V"], rnd, n), top=top), origin="GenGoType, custom folders"))
     number(cases)
     tf, st = core.run_harness(ctx, cases, binary=race_bin, deadline=20000)
     failed, nv = core.tlc_validate(ctx, "TraceCodec", tf)
@@ -2097,7 +2125,7 @@ def c15(ctx):
              "unfolder; harness built with -race (which enables checkptr). TraceCodec!AliasVerdict compares the snapshot taken right "
              "after unfolding with the target after overwriting/reuse/GC and the by-value strings with their copies. Distinct = "
              "distinct (document, chunking, target); non-trivial = at least one cut.",
-        nontrivial=lambda c: len(c["cuts"]) >= 1,
+        nontrivial=lambda c: len(c.get("cuts") or []) >= 1 or c["kind"] == "fold",
         assumptions=TCB + ["invalid pointer conversions are observed through Go's checkptr instrumentation (-race build) on the executed paths only",
                            "aliasing is observed through its effect (value changes after the buffer is overwritten), not by address analysis"])
 
